@@ -373,9 +373,8 @@ fn all_strings(alphabet: &[u8], maxlen: usize) -> Vec<Vec<u8>> {
     all
 }
 
-/// All payloads over {'1', FE, FD} up to length 5 (7 thorough) x five limit
-/// pairs; each payload: one borrow call, one-byte copy pieces, and every
-/// two-way split with rotating method pairs and a drain in between.
+/// The huge zero pieces (thorough tier) first, then the exhaustive small cases, then the small /
+/// medium zero pieces.
 pub fn enc_enumerated(thorough: bool) -> Vec<Vec<String>> {
     let (mut cases, back) = zero_cases("zenc", thorough);
     cases.extend(enc_enumerated_pieces(thorough));
@@ -437,6 +436,9 @@ fn zero_cases(verb: &str, thorough: bool) -> (Vec<Vec<String>>, Vec<Vec<String>>
     (front, back)
 }
 
+/// All payloads over {'1', FE, FD} up to length 5 (7 thorough) x five limit
+/// pairs; each payload: one borrow call, one-byte copy pieces, and every
+/// two-way split with rotating method pairs and a drain in between.
 fn enc_enumerated_pieces(thorough: bool) -> Vec<Vec<String>> {
     let limits = [(3usize, 5usize), (1, 1), (2, 3), (1, 2), (4, 2)];
     let payloads = all_strings(&[0x31, 0xFE, 0xFD], if thorough { 7 } else { 5 });
@@ -691,10 +693,8 @@ pub fn dec_case(rng: &mut Rng, _idx: u64, thorough: bool) -> Vec<String> {
     ops
 }
 
-/// All byte strings over {00,01,02,03,04,FD,FF} up to length 5 (6 thorough)
-/// with limits (2,3): every header value 0..limit+1, out-of-radix bytes in
-/// every header position, every truncation.  One `decode` call each; strings of
-/// length 2..4 also byte by byte through `decode_copy`.
+/// The huge zero pieces (thorough tier) first, then the exhaustive small strings, then the small /
+/// medium zero pieces.
 pub fn dec_enumerated(thorough: bool) -> Vec<Vec<String>> {
     let (mut cases, back) = zero_cases("zdec", thorough);
     cases.extend(dec_enumerated_strings(thorough));
@@ -702,6 +702,10 @@ pub fn dec_enumerated(thorough: bool) -> Vec<Vec<String>> {
     cases
 }
 
+/// All byte strings over {00,01,02,03,04,FD,FF} up to length 5 (6 thorough)
+/// with limits (2,3): every header value 0..limit+1, out-of-radix bytes in
+/// every header position, every truncation.  One `decode` call each; strings of
+/// length 2..4 also byte by byte through `decode_copy`.
 fn dec_enumerated_strings(thorough: bool) -> Vec<Vec<String>> {
     let l = Limits::custom(2, 3).unwrap();
     let strings = all_strings(&[0x00, 0x01, 0x02, 0x03, 0x04, 0xFD, 0xFF], if thorough { 6 } else { 5 });
